@@ -176,6 +176,42 @@ fn lexeme_count(text: &str) -> usize {
     n
 }
 
+/// texts the property says must be REJECTED (with an error): an invalid regular expression as a pattern - named, inline or
+/// split, read by a column or not, in the first or a later table -, an empty JSON path, an aggregate with the wrong number
+/// of arguments, a number out of range
+fn must_reject_case(rng: &mut Rng) -> (String, &'static str) {
+    const BAD_RE: &[&str] = &["(", "[a-", "(?P<", "a{2,1}", "*a", "a)", "(?z)", "[[:nope:]]", "\\p{Nope}", "(?P<n>a)(?P<n>b)", "x(", "[z-a]", "(?i", "\\"];
+    // certified by the regex library itself (the same one the engine compiles patterns with); none contains a quote or backslash,
+    // so the string literal holds exactly these characters
+    let certified: Vec<&str> = BAD_RE.iter().cloned().filter(|r| !r.contains('\\') && !r.contains('\'') && regex::Regex::new(r).is_err()).collect();
+    let bad = *rng.pick(&certified);
+    match rng.below(12) {
+        0 => (format!("CREATE TABLE t ( line = '{}' , line [ 1 ] => x INT ) ;", bad), "invalid-pattern|read-by-a-column"),
+        1 => (format!("CREATE TABLE t ( line = '([0-9]+)' , spare = '{}' , line [ 1 ] => x INT ) ;", bad), "invalid-pattern|not-read-by-a-column"),
+        2 => (format!("CREATE TABLE t ( spare = '{}' , {{ . a }} => x INT ) ;", bad), "invalid-pattern|beside-json-columns"),
+        3 => (format!("CREATE TABLE t ( spare = '{}' ) ;", bad), "invalid-pattern|table-without-columns"),
+        4 => (format!("CREATE TABLE t ( '{}' => x INT ) ;", bad), "invalid-pattern|inline"),
+        5 => (format!("CREATE TABLE t ( line = split '{}' , line [ 1 ] => x TEXT ) ;", bad), "invalid-pattern|split"),
+        6 => (format!("CREATE TABLE ok ( line = '(a)' , line [ 1 ] => x TEXT ) ; CREATE TABLE t ( first = '(b)' , second = '{}' , first [ 1 ] => y TEXT ) ;", bad), "invalid-pattern|second-table-second-pattern"),
+        7 => (format!("CREATE TABLE t ( {} => x INT ) ;", rng.pick(&["{ }", "{  }"])), "empty-json-path"),
+        8 => (format!("SELECT {} FROM t", rng.pick(&["string_agg ( x )", "string_agg ( )", "percentile ( x )", "percentile ( x , 0.5 , 2 )", "count ( a , b )", "min ( )", "max ( a , b , c )", "sum ( )", "avg ( a , b )", "bool_and ( )", "array_agg ( a , b )", "stddev ( )"])), "aggregate-argument-count"),
+        9 => (format!("SELECT k FROM t GROUP BY k HAVING {} > 1", rng.pick(&["percentile ( x )", "min ( )", "sum ( a , b )", "count ( a , b )"])), "aggregate-argument-count|having"),
+        10 => (rng.pick(&["SELECT x FROM t LIMIT 99999999999999999999", "SELECT x FROM t WHERE x = 99999999999999999999", "SELECT x [ 99999999999999999999 ] FROM t", "SELECT 9223372036854775808 FROM t", "SELECT x FROM t WHERE x IN ( 1 , 18446744073709551616 )"]).to_string(), "number-out-of-range"),
+        _ => (rng.pick(&["CREATE TABLE t ( line = 'a' , line [ 99999999999999999999 ] => x INT ) ;", "CREATE TABLE t ( { .a [ 99999999999999999999 ] } => x INT ) ;", "CREATE TABLE t ( line = '(a)' , line [ 1 ] => x INT DEFAULT 99999999999999999999 ) ;"]).to_string(), "number-out-of-range|definition"),
+    }
+}
+
+fn check_must_reject(text: &str, why: &str, obs: &mut Obs) -> Verdict {
+    obs.evals += 1;
+    obs.hit(&format!("must-reject:{}", why.split('|').next().unwrap_or(why)));
+    let r = if text.starts_with("CREATE") { crate::eng::tables_from(text).map(|_| ()) } else { crate::eng::parse(text).map(|_| ()) };
+    match r {
+        Err(crate::eng::EngErr::Err(_)) => { obs.nontrivial(); Verdict::Held }
+        Err(crate::eng::EngErr::Panic(p)) => Verdict::Violated(vec![Violation::new(p.sig(), format!("{:?}: {}", text, p.describe()))]),
+        Ok(()) => Verdict::Violated(vec![Violation::new(format!("must-reject|{}|accepted", why), format!("{:?} is accepted without an error", text))]),
+    }
+}
+
 /// checks one text; returns violations (empty = held) and whether the parser proper was reached
 fn check_text(text: &str, obs: &mut Obs) -> (Vec<Violation>, bool) {
     let mut vs = Vec::new();
@@ -274,7 +310,7 @@ impl Monitor for C14 {
                 for _ in 0..n { let at = *rng.pick(&spots); words[at] = rng.pick(&["MAX ( i )", "COUNT ( * )", "SUM ( g )", "MIN ( k )", "COUNT ( DISTINCT i )", "PERCENTILE ( r , 0.5 )", "STRING_AGG ( k , ',' )", "AVG ( MAX ( i ) )", "ARRAY_AGG ( s )", "BOOL_AND ( b )", "( MAX ( i ) , 1 )", "COUNT ( )", "MAX ( )", "STDDEV ( r , r )"]).to_string(); }
                 json!({"kind": "misplaced-aggregate", "text": words.join(" ")})
             },
-            9 => json!({"kind": "bad", "text": bad_definition(rng)}),
+            9 => if rng.chance(1, 2) { json!({"kind": "bad", "text": bad_definition(rng)}) } else { let (text, why) = must_reject_case(rng); json!({"kind": "must-reject", "text": text, "why": why}) },
             10 => if rng.chance(1, 2) { json!({"kind": "bad", "text": bad_definition(rng)}) } else {
                 // names and keywords re-spelled with letters whose upper- and lower-casing are not inverse to each other
                 // (long s, dotless i, Kelvin sign, ligatures): whatever a case-insensitive lookup makes of them, no crash
@@ -296,6 +332,12 @@ impl Monitor for C14 {
         let kind = case.get("kind").and_then(|t| t.as_str()).unwrap_or("?");
         obs.hit(&format!("kind:{}", kind));
         let mut all = Vec::new();
+        if kind == "must-reject" {
+            // also the general checks (error position inside the text, excerpt) apply
+            let (vs, _) = check_text(text, obs);
+            if !vs.is_empty() { return Verdict::Violated(vs); }
+            return check_must_reject(text, case["why"].as_str().unwrap_or("?"), obs);
+        }
         if kind == "prefix" {
             let idx: Vec<usize> = text.char_indices().map(|(i, _)| i).chain(std::iter::once(text.len())).collect();
             for &i in &idx {
